@@ -398,3 +398,9 @@ def statements_before(node, fnode):
             break
         cur, p = p, getattr(p, "_parent", None)
     return out
+
+
+def is_super_init(c):
+    """`super().__init__(..)` / `super(C, self).__init__(..)`"""
+    return isinstance(c, ast.Call) and isinstance(c.func, ast.Attribute) and c.func.attr == "__init__" and isinstance(c.func.value, ast.Call) \
+        and isinstance(c.func.value.func, ast.Name) and c.func.value.func.id == "super"
